@@ -100,8 +100,12 @@ def opPyEval (j : Json) : R Json := do
     let env ← envJ.toList.mapM (fun e => do
       let a ← e.getArr?
       if h : a.size = 2 then return (← a[0].getStr?, ← decPV a[1]) else throw "env pair expected")
+    let want := strD j "want" ""
     match exec ext' f.body { env := env } with
-    | .ok (_, st) => return encPyResult (.ok (.list st.out))
+    | .ok (_, st) =>
+      -- a statement taken out of a function that is not a generator: the final value of the named local
+      if want != "" then return encPyResult (st.env.get want)
+      return encPyResult (.ok (.list st.out))
     | .error e => return encPyResult (.error e)
 
 end Df.Ops
